@@ -33,6 +33,8 @@ PLAN = {
     # third round
     "C05-3": ["C05", "C16"], "C10-3": ["C10", "C12", "C17"], "C11-3": ["C11", "C03"], "C15-3": ["C15", "C06"],
     "C19-3": ["C19", "C05"],
+    # fourth round
+    "C08-4": ["C08"], "C14-4": ["C14"], "C17-4": ["C17"], "C18-4": ["C18"],
 }
 
 
